@@ -12,8 +12,8 @@ CHECK = {
     "manifest": {
         "engine": "ENUM",
         "technique": "bounded-exhaustive enumeration against a reference model",
-        "text": "TracingHTTP2Conn over a scripted net.Conn, as client and as server. (a) every byte string of length <=2/<=3 after/instead of the client preface, every single-field corruption (type, each flag bit, length +-1, stream id, payload ends, preface bytes) of every frame of 16 two-call exchanges (two of them with header blocks of 3-4 fragments) with the connection ending after any later frame, every composition of 19-24 byte exchanges into calls, every I/O outcome at every call: Read/Write/Close must return exactly what the underlying conn returned, no panic. (b) two calls (streams 1 and 3; request headers, response headers, trailers and trailers-only blocks as HEADERS alone, HEADERS + 1 CONTINUATION and HEADERS + 2..3 CONTINUATION (blocks of 3 and 4 fragments, cut anywhere, also inside a field), 0-2 DATA, END_STREAM variants, trailers / trailers-only, RST_STREAM by either side, REFUSED_STREAM + retry, GOAWAY(last-stream-id 1), one call without test name), HPACK encoded in emission order with one encoder per direction: all well-formed interleavings x {whole runs, per frame, per byte, every single cut} x {client, server}; each named call must yield exactly one completed trace equal to the script-derived model (request line, headers, request/response messages with indices, status, response headers, trailers, end/reset), the nameless call none, the retried call the retry's.",
-        "note": "Scripted conn instead of a socket; frame scripts built with x/net/http2 + hpack encoders (trusted as generators only); every single cut is combined with all interleavings only for a 6x6 set of shapes (thorough) and with the first/middle/last interleaving otherwise. Shapes with header blocks of 3-4 fragments are paired with 5 partner shapes and with each other, not with every shape.",
+        "text": "TracingHTTP2Conn over a scripted net.Conn, as client and as server. (a) every byte string of length <=2/<=3 after/instead of the client preface, every single-field corruption (type, each flag bit, length +-1, stream id, payload ends, preface bytes) of every frame of 16 two-call exchanges (two of them with header blocks of 3-4 fragments) with the connection ending after any later frame, every composition of 19-24 byte exchanges into calls, every I/O outcome at every call: Read/Write/Close must return exactly what the underlying conn returned, no panic. (b) two calls (streams 1 and 3; request headers, response headers, trailers and trailers-only blocks as HEADERS alone, HEADERS + 1 CONTINUATION and HEADERS + 2..3 CONTINUATION (blocks of 3 and 4 fragments, cut anywhere, also inside a field), 0-2 DATA, one enveloped message spread over 3 and 4 DATA frames of its stream (request side, response side, both; alone and followed by a second message in its own frame or starting in the frame of the last piece), END_STREAM variants, trailers / trailers-only, RST_STREAM by either side, REFUSED_STREAM + retry, GOAWAY(last-stream-id 1), late frames (response HEADERS / DATA / trailers, also with CONTINUATION, that were in flight and arrive after the client's RST_STREAM or after the GOAWAY that dropped the stream: they belong to no traced stream but their header blocks add entries to the HPACK dynamic table which the later response blocks of the other call refer to by index), one call without test name), HPACK encoded in emission order with one hpack.Encoder per direction (dynamic table on; per-call custom fields plus fields repeated by every call): all well-formed interleavings x {whole runs, per frame, per byte, every single cut} x {client, server}; each named call must yield exactly one completed trace equal to the script-derived model (request line, headers, request/response messages with indices, status, response headers, trailers, end/reset), the nameless call none, the retried call the retry's.",
+        "note": "Scripted conn instead of a socket; frame scripts built with x/net/http2 + hpack encoders (trusted as generators only); every single cut is combined with all interleavings only for a 6x6 set of shapes (thorough) and with the first/middle/last interleaving otherwise. Shapes with header blocks of 3-4 fragments are paired with 5 partner shapes and with each other, late shapes with 3 (thorough 9) partner shapes and each other, shapes with a message in 3-4 DATA frames with 1-2 partner shapes, not with every shape. Response payload bytes are small values so that a tracer that loses its place in a body cannot be made to allocate gigabytes by a bogus envelope length (it is reported through its wrong messages).",
         "design_ref": "DESIGN.md §2.2, §4 C15",
     },
     "units": [
